@@ -34,7 +34,7 @@ type LiteralCase struct {
 
 var literalKinds = []string{
 	"bootstrapping.ParametersLiteral", "bootstrapping.Parameters", "dft.MatrixLiteral", "mod1.ParametersLiteral", "ring.Ring",
-	"rlwe.ParametersLiteral", "bgv.ParametersLiteral", "ckks.ParametersLiteral",
+	"rlwe.ParametersLiteral", "bgv.ParametersLiteral", "ckks.ParametersLiteral", "ring.Type",
 }
 
 func genLiteral(t *rapid.T) LiteralCase {
@@ -382,6 +382,8 @@ func newLike(v any) any {
 		return &bgv.ParametersLiteral{}
 	case *ckks.ParametersLiteral:
 		return &ckks.ParametersLiteral{}
+	case *ring.Type:
+		return new(ring.Type)
 	}
 	panic("newLike: unknown type")
 }
@@ -408,6 +410,9 @@ func runLiteral(c LiteralCase, rec *h.Rec) error {
 			return v, s, nil
 		case "ring.Ring":
 			return genRing(seed)
+		case "ring.Type":
+			v := ring.Type(seed % 2)
+			return &v, v.String(), nil
 		case "rlwe.ParametersLiteral":
 			v, s := genRlweLiteral(seed)
 			return &v, s, nil
